@@ -66,7 +66,7 @@ pub fn check(shape: &Shape, input: &[u8], flush_end: bool, l: &mut Local) -> Cas
             let (r, _log) = with_shape(shape, || no_panic(|| postcard::take_from_bytes_cobs::<Dyn>(buf).map(|(d, rem)| (d, rem.as_ptr() as usize, rem.len()))));
             let r = r.map_err(|p| fail("cobs-decode", format!("take_from_bytes_cobs panicked: {}", p), cj()))?;
             if let Ok((_, ptr, len)) = &r {
-                if *ptr != base + frame.frame_end || *len != input.len() - frame.frame_end {
+                if (*len > 0 && *ptr != base + frame.frame_end) || *len != input.len() - frame.frame_end {
                     return Err(fail(
                         "cobs-decode",
                         format!("remainder starts at offset {} (len {}), the frame's sentinel ends at {}", ptr.wrapping_sub(base), len, frame.frame_end),
